@@ -1,4 +1,10 @@
-import PyPhysim.Proofs.C20Real
+import PyPhysim.Proofs.C20Complex
+import PyPhysim.Proofs.C20SM
+import PyPhysim.Proofs.C20Select
+import PyPhysim.Proofs.C20Gpcm
+import PyPhysim.Proofs.C20EigQR
+import PyPhysim.Proofs.C20GmdStep
+import PyPhysim.Generated.C20Conversion
 
 /-!
 # C20 — subspace and linear-algebra kernels satisfy their defining identities
@@ -160,4 +166,551 @@ theorem chordal_eq_chordal2 (A Q1 : Mat K m p) (B Q2 : Mat K m q)
   simp only [chordal, chordal2, e1, e2]
 
 end chordal
+section complex
+open Matrix
+variable {m p q r k n : Nat}
+
+/-- "full column rank" is exactly the `inv` contract: a left inverse `G` of `Aᴴ A`
+    exists iff `x ↦ A x` is injective (complex matrices) -/
+theorem inv_contract_iff_full_column_rank (A : Mat ℂ m k) :
+    (∃ G : Mat ℂ k k, matMul G (gram A) = eye) ↔ Function.Injective (toM A).mulVec := by
+  constructor
+  · rintro ⟨G, hG⟩
+    to_matrix at hG
+    exact Pf.injective_of_gram_inv _ _ hG
+  · intro h
+    obtain ⟨G, hG⟩ := Pf.gram_inv_of_injective (toM A) h
+    refine ⟨fun i j => G i j, ?_⟩
+    apply toM_inj
+    rw [toM_matMul, toM_gram, toM_eye]
+    exact hG
+
+/-- a projector-based chordal distance is zero exactly when the two projection
+    matrices coincide -/
+theorem chordOfProj_eq_zero_iff (P1 P2 : Mat ℂ m m) : chordOfProj P1 P2 = 0 ↔ P1 = P2 := by
+  unfold chordOfProj
+  rw [frobSq_eq]
+  show (((Real.sqrt _ : ℝ) : ℂ) / ((Real.sqrt _ : ℝ) : ℂ) = 0) ↔ _
+  rw [Pf.csqrt_div_eq_zero_iff, toM_msub]
+  constructor
+  · intro h
+    have h0 := le_antisymm h (Pf.re_fro_nonneg (toM P1 - toM P2))
+    have := (Pf.re_fro_eq_zero_iff _).mp h0
+    exact toM_inj (sub_eq_zero.mp this)
+  · intro h
+    subst h
+    simp
+
+/-- the distance vanishes exactly for equal subspaces, (⇐): `B = A T` with `T`
+    invertible gives distance `0` … -/
+theorem chordal2_zero_of_same_span (A : Mat ℂ m p) (T Ti GA GB : Mat ℂ p p)
+    (hT : matMul T Ti = eye) (hGA : matMul GA (gram A) = eye)
+    (hGB : matMul GB (gram (matMul A T)) = eye) :
+    chordal2 GA GB A (matMul A T) = 0 := by
+  unfold chordal2
+  rw [chordOfProj_eq_zero_iff, proj_basis_invariant A T Ti GA GB hT hGA hGB]
+
+/-- … (⇒): distance `0` forces the same projection matrix, and then each basis is
+    the other one times a coefficient matrix (equal column spaces) -/
+theorem same_span_of_chordal2_zero (A : Mat ℂ m p) (B : Mat ℂ m q) (GA : Mat ℂ p p) (GB : Mat ℂ q q)
+    (hGA : matMul GA (gram A) = eye) (hGB : matMul GB (gram B) = eye)
+    (h0 : chordal2 GA GB A B = 0) :
+    projWith GA A = projWith GB B ∧
+    B = matMul A (matMul (matMul GA (cT A)) B) ∧
+    A = matMul B (matMul (matMul GB (cT B)) A) := by
+  have hP : projWith GA A = projWith GB B := (chordOfProj_eq_zero_iff _ _).mp h0
+  refine ⟨hP, ?_, ?_⟩
+  · have h1 := proj_fixes_A B GB hGB
+    rw [← hP] at h1
+    have h2 := congrArg toM h1
+    apply toM_inj
+    simp only [toM_matMul, toM_projWith, toM_cT] at h2 ⊢
+    rw [← Matrix.mul_assoc, ← Matrix.mul_assoc]; exact h2.symm
+  · have h1 := proj_fixes_A A GA hGA
+    rw [hP] at h1
+    have h2 := congrArg toM h1
+    apply toM_inj
+    simp only [toM_matMul, toM_projWith, toM_cT] at h2 ⊢
+    rw [← Matrix.mul_assoc, ← Matrix.mul_assoc]; exact h2.symm
+
+/-- value of `calc_chordal_distance` from the singular values `s` of `Q1ᴴ Q2`
+    (thin SVD contract `Q1ᴴQ2 = U diag(s) Vᴴ`, `UᴴU = 1`, `VᴴV = 1`), any dimensions:
+    `d² = (p+q)/2 − Σ sᵢ²` -/
+theorem chordal_from_singular_values (Q1 : Mat ℂ m p) (Q2 : Mat ℂ m q) (U : Mat ℂ p r) (V : Mat ℂ q r)
+    (s : Fin r → ℝ) (hQ1 : matMul (cT Q1) Q1 = eye) (hQ2 : matMul (cT Q2) Q2 = eye)
+    (hU : matMul (cT U) U = eye) (hV : matMul (cT V) V = eye)
+    (hsvd : pangleArg Q1 Q2 = matMul (matMul U (diagM (fun i => ((s i : ℝ) : ℂ)))) (cT V)) :
+    chordal Q1 Q2 = ((Real.sqrt (((p : ℝ) + (q : ℝ)) / 2 - ∑ i, s i * s i) : ℝ) : ℂ) := by
+  to_matrix at hQ1; to_matrix at hQ2; to_matrix at hU; to_matrix at hV; to_matrix at hsvd
+  unfold chordal chordOfProj
+  rw [frobSq_eq]
+  simp only [toM_msub, toM_matMul, toM_cT]
+  rw [Pf.fro_proj_svd _ _ _ _ s hQ1 hQ2 hU hV hsvd]
+  show (((Real.sqrt _ : ℝ) : ℂ) / ((Real.sqrt _ : ℝ) : ℂ)) = _
+  rw [Pf.csqrt_div]
+  congr 2
+  ring
+
+/-- value of the principal-angle form from the same singular values
+    (`0 ≤ sᵢ ≤ 1`): `d² = r − Σ sᵢ²` -/
+theorem chordal_from_angles_value (s : Fin r → ℝ) (h0 : ∀ i, 0 ≤ s i) (h1 : ∀ i, s i ≤ 1) :
+    chordalFromAngles (principalAngles (List.ofFn s)) = Real.sqrt ((r : ℝ) - ∑ i, s i * s i) := by
+  unfold chordalFromAngles
+  rw [Pf.sumSinSq_angles r s h0 h1]
+  rfl
+
+/-- the singular values handed back by the SVD kernel for `Q1ᴴ Q2` are cosines: under
+    the contract they are automatically `≤ 1` (so the clipping `S[S > 1] = 1` only
+    absorbs rounding) -/
+theorem principal_cosines_le_one (Q1 : Mat ℂ m p) (Q2 : Mat ℂ m q) (U : Mat ℂ p r) (V : Mat ℂ q r)
+    (s : Fin r → ℝ) (hQ1 : matMul (cT Q1) Q1 = eye) (hQ2 : matMul (cT Q2) Q2 = eye)
+    (hU : matMul (cT U) U = eye) (hV : matMul (cT V) V = eye)
+    (hsvd : pangleArg Q1 Q2 = matMul (matMul U (diagM (fun i => ((s i : ℝ) : ℂ)))) (cT V))
+    (h0 : ∀ i, 0 ≤ s i) : ∀ i, s i ≤ 1 := by
+  to_matrix at hQ1; to_matrix at hQ2; to_matrix at hU; to_matrix at hV; to_matrix at hsvd
+  exact Pf.sv_le_one _ _ _ _ s hQ1 hQ2 hU hV hsvd h0
+
+/-- the three chordal-distance routines agree for subspaces of equal dimension:
+    principal-angle form = `calc_chordal_distance` (and `= calc_chordal_distance_2`
+    by `chordal_eq_chordal2`), for every SVD kernel result satisfying the contract
+    `Q1ᴴQ2 = U diag(s) Vᴴ`, `U`, `V` unitary, `s ≥ 0` -/
+theorem chordal_eq_angles (Q1 Q2 : Mat ℂ m p) (U V : Mat ℂ p p)
+    (s : Fin p → ℝ) (hQ1 : matMul (cT Q1) Q1 = eye) (hQ2 : matMul (cT Q2) Q2 = eye)
+    (hU : matMul (cT U) U = eye) (hV : matMul (cT V) V = eye)
+    (hsvd : pangleArg Q1 Q2 = matMul (matMul U (diagM (fun i => ((s i : ℝ) : ℂ)))) (cT V))
+    (h0 : ∀ i, 0 ≤ s i) :
+    chordal Q1 Q2 = ((chordalFromAngles (principalAngles (List.ofFn s)) : ℝ) : ℂ) := by
+  have h1 := principal_cosines_le_one Q1 Q2 U V s hQ1 hQ2 hU hV hsvd h0
+  rw [chordal_from_singular_values Q1 Q2 U V s hQ1 hQ2 hU hV hsvd, chordal_from_angles_value s h0 h1]
+  congr 2
+  ring
+
+/-- the whitening matrix turns the covariance into the identity: `Wᴴ C W = 1`
+    whenever the orthonormalised eigenvector matrix `Q` and the eigenvalues `L`
+    satisfy `QᴴQ = 1`, `C Q = Q diag(L)`, `L` real and positive -/
+theorem whitening_identity (C Q : Mat ℂ n n) (L : Fin n → ℂ)
+    (hQ : matMul (cT Q) Q = eye) (hC : matMul C Q = matMul Q (diagM L))
+    (hL : ∀ i, (L i).im = 0 ∧ 0 < (L i).re) :
+    matMul (matMul (cT (whiten L Q)) C) (whiten L Q) = eye := by
+  to_matrix at hQ; to_matrix at hC
+  unfold whiten
+  to_matrix
+  exact Pf.whiten_identity _ _ L hQ hC hL
+
+/-- the contract used by `whitening_identity` follows from the contracts of the two
+    kernel calls of the repaired code for EVERY Hermitian covariance, repeated
+    eigenvalues included: `eig` gives `C V = V diag(L)`, `qr` gives `V = Q R` with `Q`
+    unitary and `R` upper triangular and invertible; then `C Q = Q diag(L)` -/
+theorem eig_then_qr_contract (C V Q R Ri : Mat ℂ n n) (L : Fin n → ℂ)
+    (hCh : cT C = C) (hCV : matMul C V = matMul V (diagM L)) (hV : V = matMul Q R)
+    (hQ : matMul (cT Q) Q = eye) (hR : ∀ i j : Fin n, j < i → R i j = 0) (hRi : matMul R Ri = eye) :
+    matMul C Q = matMul Q (diagM L) := by
+  to_matrix at hCh; to_matrix at hCV; to_matrix at hV; to_matrix at hQ; to_matrix at hRi
+  to_matrix
+  exact Pf.eig_qr_contract _ _ _ _ _ L hCh hCV hV hQ (fun i j hij => hR i j hij) hRi
+
+/-- hence: for every Hermitian `C` whose `eig`/`qr` results satisfy their contracts with
+    real positive eigenvalues, `calc_whitening_matrix` whitens: `Wᴴ C W = 1` -/
+theorem whitening_identity_of_kernels (C V Q R Ri : Mat ℂ n n) (L : Fin n → ℂ)
+    (hCh : cT C = C) (hCV : matMul C V = matMul V (diagM L)) (hV : V = matMul Q R)
+    (hQ : matMul (cT Q) Q = eye) (hR : ∀ i j : Fin n, j < i → R i j = 0) (hRi : matMul R Ri = eye)
+    (hL : ∀ i, (L i).im = 0 ∧ 0 < (L i).re) :
+    matMul (matMul (cT (whiten L Q)) C) (whiten L Q) = eye :=
+  whitening_identity C Q L hQ (eig_then_qr_contract C V Q R Ri L hCh hCV hV hQ hR hRi) hL
+
+end complex
+
+section sherman_morrison
+variable {K : Type} [Field K] {n : Nat}
+
+/-- one Sherman–Morrison step: a left inverse of `A` is turned into a left inverse
+    of `A + d·eᵢeᵢᵀ` whenever the pivot `1 + d·invᵢᵢ` is non-zero -/
+theorem sherman_morrison_step (A inv : Mat K n n) (i : Fin n) (d : K)
+    (h : matMul inv A = eye) (hp : 1 + d * inv i i ≠ 0) :
+    matMul (smStep inv i d) (madd A (diagM (fun j => if j = i then d else 0))) = eye := by
+  to_matrix at h
+  to_matrix
+  have : (fun j => if j = i then d else 0) = (Pi.single i d : Fin n → K) := by
+    funext j; simp [Pi.single_apply]
+  rw [this]
+  exact Pf.sm_step _ _ i d h hp
+
+/-- the diagonal-update inverse equals the true inverse: for every `A`, every
+    left inverse `invA`, every diagonal of length `≤ n` (shorter ones leave the
+    remaining entries untouched) whose pivots are non-zero, `update_inv_sum_diag`
+    returns without error the two-sided inverse of `A + D` -/
+theorem update_inv_sum_diag_correct (A invA : Mat K n n) (diagonal : List K)
+    (h : matMul invA A = eye) (hlen : diagonal.length ≤ n)
+    (hp : ∀ x ∈ uisdPivots 0 diagonal invA, x ≠ 0) :
+    ∃ B, updateInvSumDiag invA diagonal = .ok B ∧ matMul B (madd A (diagFrom 0 diagonal)) = eye ∧
+      matMul (madd A (diagFrom 0 diagonal)) B = eye := by
+  to_matrix at h
+  obtain ⟨B, hB, hinv⟩ := Pf.uisdGo_correct diagonal 0 invA A h (by omega) hp
+  refine ⟨B, hB, ?_, ?_⟩
+  · to_matrix
+    exact hinv
+  · to_matrix
+    exact _root_.mul_eq_one_comm.mp hinv
+
+/-- the pivot hypothesis is implied by the natural one: if every partial sum
+    `A + diag(d₀ … d_k, 0 …)` has a left inverse, the result is the inverse of `A + D` -/
+theorem update_inv_sum_diag_of_invertible_partial_sums (A invA : Mat K n n) (diagonal : List K)
+    (h : matMul invA A = eye) (hlen : diagonal.length ≤ n)
+    (hpart : ∀ k, k < diagonal.length →
+      ∃ B : Mat K n n, matMul B (madd A (diagFrom 0 (diagonal.take (k + 1)))) = eye) :
+    ∃ B, updateInvSumDiag invA diagonal = .ok B ∧ matMul B (madd A (diagFrom 0 diagonal)) = eye ∧
+      matMul (madd A (diagFrom 0 diagonal)) B = eye := by
+  refine update_inv_sum_diag_correct A invA diagonal h hlen ?_
+  have h' := h
+  to_matrix at h'
+  refine Pf.uisd_pivots_of_partial diagonal 0 invA A h' (by omega) (fun k hk => ?_)
+  obtain ⟨B, hB⟩ := hpart k hk
+  to_matrix at hB
+  exact ⟨toM B, hB⟩
+
+/-- a diagonal longer than the matrix is rejected with numpy's `IndexError` -/
+theorem update_inv_sum_diag_index_error (invA : Mat K n n) (diagonal : List K) (hlen : n < diagonal.length) :
+    updateInvSumDiag invA diagonal = .error .IndexError :=
+  Pf.uisdGo_error diagonal 0 invA (Nat.zero_le n) (by omega)
+
+end sherman_morrison
+
+section selectors
+variable {β : Type} [Preorder β]
+
+/-- `peig`/`leig` reject `n > ncols` with `ValueError` -/
+theorem eig_selectors_reject {α : Type} {r c : Nat} (D : Fin c → α) (V : Mat α r c) (perm : List Nat) (n : Nat)
+    (h : c < n) :
+    peig D V perm n = .error .ValueError ∧ leig D V perm n = .error .ValueError := by
+  simp [peig, leig, peigIdx, leigIdx, h, bind, Except.bind]
+
+/-- `peig` keeps the indexes of the `n` largest values, largest first: for every
+    `argsort` result satisfying its contract the kept index list has length `n`, no
+    repetition, non-increasing values, and every index left out has a value `≤`
+    every kept one -/
+theorem peig_selects_largest (val : Nat → β) {c n : Nat} {perm : List Nat}
+    (h : ArgsortContract val c perm) (hn : n ≤ c) :
+    ∃ idx, peigIdx c n perm = .ok idx ∧ idx.length = n ∧ idx.Nodup ∧ (∀ i ∈ idx, i < c) ∧
+      idx.Pairwise (fun a b => val b ≤ val a) ∧
+      (∀ i ∈ idx, ∀ j, j < c → j ∉ idx → val j ≤ val i) :=
+  Pf.peigIdx_spec val h hn
+
+/-- `leig` keeps the indexes of the `n` smallest values, smallest first -/
+theorem leig_selects_smallest (val : Nat → β) {c n : Nat} {perm : List Nat}
+    (h : ArgsortContract val c perm) (hn : n ≤ c) :
+    ∃ idx, leigIdx c n perm = .ok idx ∧ idx.length = n ∧ idx.Nodup ∧ (∀ i ∈ idx, i < c) ∧
+      idx.Pairwise (fun a b => val a ≤ val b) ∧
+      (∀ i ∈ idx, ∀ j, j < c → j ∉ idx → val i ≤ val j) :=
+  Pf.leigIdx_spec val h hn
+
+/-- what `peig` returns: position by position the column `V[:, idx[t]]` with the
+    eigenvalue `D[idx[t]]` for the kept indexes, and every returned pair is an
+    eigenpair of `A` when the kernel result satisfies `A V = V diag(D)` -/
+theorem peig_returns_eigenpairs {K : Type} [CommRing K] {c n : Nat} (A V : Mat K c c) (D : Fin c → K)
+    (val : Nat → β) {perm : List Nat} (hperm : ArgsortContract val c perm) (hn : n ≤ c)
+    (hAV : matMul A V = matMul V (diagM D)) :
+    ∃ idx pairs, peigIdx c n perm = .ok idx ∧ peig D V perm n = .ok pairs ∧
+      List.Forall₂ (fun pr j => ∃ hj : j < c, pr = ((fun i => V i ⟨j, hj⟩), D ⟨j, hj⟩)) pairs idx ∧
+      ∀ pr ∈ pairs, mulVec A pr.1 = fun i => pr.2 * pr.1 i := by
+  obtain ⟨idx, hidx, _, _, hlt, _, _⟩ := Pf.peigIdx_spec val hperm hn
+  obtain ⟨pairs, hpairs⟩ := Pf.selectPairs_ok V D idx hlt
+  refine ⟨idx, pairs, hidx, by simp [peig, hidx, hpairs, bind, Except.bind],
+    Pf.selectPairs_forall2 V D idx pairs hpairs, ?_⟩
+  intro pr hpr
+  obtain ⟨_, hm⟩ := Pf.selectPairs_mem V D idx pairs hpairs
+  obtain ⟨j, hj, _, rfl⟩ := hm pr hpr
+  have hAV' := congrArg toM hAV
+  simp only [toM_matMul, toM_diagM] at hAV'
+  funext i
+  simp only [mulVec, sumFin_eq]
+  exact Pf.eigen_column _ _ D hAV' ⟨j, hj⟩ i
+
+/-- the same for `leig` -/
+theorem leig_returns_eigenpairs {K : Type} [CommRing K] {c n : Nat} (A V : Mat K c c) (D : Fin c → K)
+    (val : Nat → β) {perm : List Nat} (hperm : ArgsortContract val c perm) (hn : n ≤ c)
+    (hAV : matMul A V = matMul V (diagM D)) :
+    ∃ idx pairs, leigIdx c n perm = .ok idx ∧ leig D V perm n = .ok pairs ∧
+      List.Forall₂ (fun pr j => ∃ hj : j < c, pr = ((fun i => V i ⟨j, hj⟩), D ⟨j, hj⟩)) pairs idx ∧
+      ∀ pr ∈ pairs, mulVec A pr.1 = fun i => pr.2 * pr.1 i := by
+  obtain ⟨idx, hidx, _, _, hlt, _, _⟩ := Pf.leigIdx_spec val hperm hn
+  obtain ⟨pairs, hpairs⟩ := Pf.selectPairs_ok V D idx hlt
+  refine ⟨idx, pairs, hidx, by simp [leig, hidx, hpairs, bind, Except.bind],
+    Pf.selectPairs_forall2 V D idx pairs hpairs, ?_⟩
+  intro pr hpr
+  obtain ⟨_, hm⟩ := Pf.selectPairs_mem V D idx pairs hpairs
+  obtain ⟨j, hj, _, rfl⟩ := hm pr hpr
+  have hAV' := congrArg toM hAV
+  simp only [toM_matMul, toM_diagM] at hAV'
+  funext i
+  simp only [mulVec, sumFin_eq]
+  exact Pf.eigen_column _ _ D hAV' ⟨j, hj⟩ i
+
+/-- `least_right_singular_vectors`: `V0` and `V1` together are all right singular
+    vectors exactly once (in reversed order), `V0` has `min n c` columns, and with
+    non-increasing singular values (one per column, zero beyond the rank) every
+    column of `V0` has a singular value `≤` every column of `V1` -/
+theorem least_rsv_split (sig : Nat → β) (c n : Nat) :
+    (lrsvIdx c n).1 ++ (lrsvIdx c n).2 = (List.range c).reverse ∧
+    (lrsvIdx c n).1.length = min n c ∧
+    ((∀ a b, a ≤ b → b < c → sig b ≤ sig a) →
+      ∀ a ∈ (lrsvIdx c n).1, ∀ b ∈ (lrsvIdx c n).2, sig a ≤ sig b) :=
+  ⟨Pf.lrsvIdx_append c n, Pf.lrsvIdx_length c n, Pf.lrsvIdx_least sig c n⟩
+
+/-- the third result: never an error (the singular values are padded to one per
+    column), and entry `t` is the singular value of column `idx1[t]` of `V1`
+    (zero for a column beyond the `min(m, c)` singular values) -/
+theorem least_rsv_values {α : Type} [Zero α] (S : List α) (c n : Nat) (hS : S.length ≤ c) :
+    ∃ out, lrsvS S c n = .ok out ∧
+      out.map some = (lrsvIdx c n).2.map (fun j => some (if h : j < S.length then S[j] else 0)) := by
+  have hlt : ∀ j ∈ (lrsvIdx c n).2, j < (padS S c).length := by
+    intro j hj
+    rw [Pf.padS_length S c hS]
+    have : j ∈ (List.range c).reverse := by
+      rw [← Pf.lrsvIdx_append c n]; exact List.mem_append_right _ hj
+    simpa using this
+  obtain ⟨out, hout, hmap⟩ := Pf.pick_ok (padS S c) _ hlt
+  refine ⟨out, hout, ?_⟩
+  rw [hmap]
+  apply List.map_congr_left
+  intro j hj
+  have hjc : j < c := by have := hlt j hj; rwa [Pf.padS_length S c hS] at this
+  exact Pf.padS_getElem? S c j hjc
+
+/-- what the columns are: for a full SVD `A = U Σ Vᴴ` with `Vᴴ` unitary, `A V = U Σ`;
+    in particular a right singular vector beyond the `min(m, c)` singular values
+    (the extra columns of a wide matrix, always in `V0`) lies in the null space -/
+theorem right_singular_vectors {K : Type} [CommRing K] [StarRing K] {m c : Nat} (A : Mat K m c) (U : Mat K m m)
+    (S : Fin (min m c) → K) (VH : Mat K c c)
+    (hA : A = matMul (matMul U (sigmaMat S)) VH) (hV : matMul VH (cT VH) = eye) :
+    matMul A (cT VH) = matMul U (sigmaMat S) ∧
+    ∀ j : Fin c, min m c ≤ j.val → ∀ i, matMul A (cT VH) i j = 0 := by
+  to_matrix at hA; to_matrix at hV
+  have h1 : matMul A (cT VH) = matMul U (sigmaMat S) := by
+    to_matrix
+    exact Pf.svd_right _ _ _ _ hA hV
+  refine ⟨h1, fun j hj i => ?_⟩
+  rw [h1]
+  simp only [matMul, sumFin_eq]
+  refine Finset.sum_eq_zero (fun a _ => ?_)
+  have : a.val ≠ j.val := by
+    intro e
+    have : j.val < min m c := Nat.lt_min.mpr ⟨e ▸ a.isLt, j.isLt⟩
+    omega
+  simp [sigmaMat, this]
+
+/-- `get_principal_component_matrix(A, k)` is the first `k` columns of the
+    truncated SVD `U Σ_k Vᴴ` (`Σ_k` keeps the `k` largest singular values) -/
+theorem gpcm_is_truncated_svd {K : Type} [CommRing K] {m c : Nat} (U : Mat K m m) (S : Fin (min m c) → K)
+    (VH : Mat K c c) (k : Nat) (hk : k ≤ c) (i : Fin m) (j : Fin k) :
+    gpcm U S VH k hk i j
+      = matMul U (matMul (sigmaMat (m := m) (fun b => if b.val < k then S b else 0)) VH) i
+          ⟨j.val, Nat.lt_of_lt_of_le j.isLt hk⟩ :=
+  Pf.gpcm_eq_trunc U S VH k hk i j
+
+/-- keeping every component gives the matrix back (SVD contract `A = U Σ Vᴴ`) -/
+theorem gpcm_all_components {K : Type} [CommRing K] {m c : Nat} (A : Mat K m c) (U : Mat K m m)
+    (S : Fin (min m c) → K) (VH : Mat K c c) (hA : A = matMul U (matMul (sigmaMat S) VH)) :
+    gpcm U S VH c (Nat.le_refl c) = A := by
+  funext i j
+  rw [Pf.gpcm_all, hA]
+
+/-- the dead dimensions are removed: the result has no component along the left
+    singular vectors `u_r`, `r ≥ k` -/
+theorem gpcm_dead_dimensions {K : Type} [CommRing K] [StarRing K] {m c : Nat} (U : Mat K m m)
+    (S : Fin (min m c) → K) (VH : Mat K c c) (k : Nat) (hk : k ≤ c) (hU : matMul (cT U) U = eye)
+    (r : Fin m) (j : Fin k) (hr : k ≤ r.val) :
+    matMul (cT U) (gpcm U S VH k hk) r j = 0 :=
+  Pf.gpcm_dead U S VH k hk hU r j hr
+
+end selectors
+
+section conversions
+
+/-- TIE TO SOURCE: the definitions re-emitted from the current
+    `pyphysim/util/conversion.py` (`Generated/C20Conversion.lean`) are, for every scalar
+    type, the model functions the conversion theorems below are about -/
+theorem generated_conversions_normal_form {ρ : Type} [Add ρ] [Sub ρ] [Mul ρ] [Div ρ] [OfNat ρ 10]
+    [OfNat ρ 1000] [Transc ρ] :
+    (∀ x : ρ, Generated.C20.dB2Linear x = dB2Linear x) ∧
+    (∀ x : ρ, Generated.C20.linear2dB x = linear2dB x) ∧
+    (∀ x : ρ, Generated.C20.dBm2Linear x = dBm2Linear x) ∧
+    (∀ x : ρ, Generated.C20.linear2dBm x = linear2dBm x) ∧
+    (∀ x b : ρ, Generated.C20.SNR_dB_to_EbN0_dB x b = snrToEbN0 x b) ∧
+    (∀ x b : ρ, Generated.C20.EbN0_dB_to_SNR_dB x b = ebN0ToSnr x b) :=
+  ⟨fun _ => rfl, fun _ => rfl, fun _ => rfl, fun _ => rfl, fun _ _ => rfl, fun _ _ => rfl⟩
+
+/-- dB → linear → dB is the identity on every real; linear → dB → linear on
+    every positive real -/
+theorem db_linear_inverse :
+    (∀ y : ℝ, linear2dB (dB2Linear y) = y) ∧ (∀ x : ℝ, 0 < x → dB2Linear (linear2dB x) = x) := by
+  constructor
+  · intro y
+    show 10 * Real.logb 10 ((10 : ℝ) ^ (y / 10)) = y
+    rw [Pf.log10_pow10]; ring
+  · intro x hx
+    show (10 : ℝ) ^ (10 * Real.logb 10 x / 10) = x
+    rw [mul_div_cancel_left₀ _ (by norm_num : (10 : ℝ) ≠ 0), Pf.pow10_log10 x hx]
+
+/-- the same for dBm -/
+theorem dbm_linear_inverse :
+    (∀ y : ℝ, linear2dBm (dBm2Linear y) = y) ∧ (∀ x : ℝ, 0 < x → dBm2Linear (linear2dBm x) = x) := by
+  constructor
+  · intro y
+    show 10 * Real.logb 10 ((10 : ℝ) ^ (y / 10) / 1000 * 1000) = y
+    rw [div_mul_cancel₀ _ (by norm_num : (1000 : ℝ) ≠ 0), Pf.log10_pow10]; ring
+  · intro x hx
+    show (10 : ℝ) ^ (10 * Real.logb 10 (x * 1000) / 10) / 1000 = x
+    rw [mul_div_cancel_left₀ _ (by norm_num : (10 : ℝ) ≠ 0), Pf.pow10_log10 _ (by positivity)]
+    field_simp
+
+/-- dBm is dB shifted by 30 (a factor 1000) -/
+theorem dbm_is_db_plus_30 (x : ℝ) (hx : 0 < x) : linear2dBm x = linear2dB x + 30 := by
+  show 10 * Real.logb 10 (x * 1000) = 10 * Real.logb 10 x + 30
+  rw [Real.logb_mul hx.ne' (by norm_num)]
+  have : Real.logb 10 1000 = 3 := by
+    rw [show (1000 : ℝ) = (10 : ℝ) ^ (3 : ℝ) by norm_num]
+    exact Pf.log10_pow10 3
+  rw [this]; ring
+
+/-- SNR ↔ Eb/N0 conversions are mutually inverse (every real, every `bits`), and
+    Eb/N0 is the SNR per bit: `EbN0 = SNR / bits` in linear scale -/
+theorem ebn0_snr_inverse (v b : ℝ) :
+    ebN0ToSnr (snrToEbN0 v b) b = v ∧ snrToEbN0 (ebN0ToSnr v b) b = v := by
+  constructor
+  · show v - 10 * Real.logb 10 b + 10 * Real.logb 10 b = v; ring
+  · show v + 10 * Real.logb 10 b - 10 * Real.logb 10 b = v; ring
+
+theorem ebn0_is_snr_per_bit (snr b : ℝ) (hs : 0 < snr) (hb : 0 < b) :
+    snrToEbN0 (linear2dB snr) b = linear2dB (snr / b) := by
+  show 10 * Real.logb 10 snr - 10 * Real.logb 10 b = 10 * Real.logb 10 (snr / b)
+  rw [Real.logb_div hs.ne' hb.ne']; ring
+
+end conversions
+
+section gmd
+
+/-- FULL STATEMENT of the geometric-mean-decomposition clause (real case), about the
+    executable model `gmd` of `Model/C20Gmd.lean`: for every full SVD with positive
+    non-increasing singular values and `σ̄` their geometric mean, the sweep returns
+    `Q, R, P` with `Q R Pᵀ = U Σ Vᵀ`, orthonormal `Q`, `P`, upper-triangular `R` with
+    constant diagonal `σ̄`.  NOT PROVED: the loop invariant through the permutation
+    bookkeeping is not formalised; the clause is checked numerically on every case by the
+    oracle `gmd` of the harness, the model is tied to the code by correspondence, and the
+    algebra of each Givens step is `gmd_rotation_step_partial`. -/
+def GmdStatement : Prop :=
+  ∀ (m n : Nat) (U : Mat ℝ m m) (V : Mat ℝ n n) (S : Fin (min m n) → ℝ) (sb : ℝ),
+    0 < min m n → matMul (cT U) U = eye → matMul (cT V) V = eye →
+    (∀ i, 0 < S i) → (∀ i j, i ≤ j → S j ≤ S i) → 0 < sb → sb ^ (min m n) = ∏ i, S i →
+    ∃ Q R P mg, gmd m n (min m n) sb (colsOf U) (Array.ofFn S) (colsOf V) = .ok (Q, R, P, mg) ∧
+      (let Qm : Mat ℝ m m := fun i j => entryCols Q i.val j.val
+       let Rm : Mat ℝ m n := fun i j => entryRows R i.val j.val
+       let Pm : Mat ℝ n n := fun i j => entryCols P i.val j.val
+       matMul (matMul Qm Rm) (cT Pm) = matMul (matMul U (sigmaMat S)) (cT V) ∧
+       matMul (cT Qm) Qm = eye ∧ matMul (cT Pm) Pm = eye ∧
+       (∀ i j, j.val < i.val → Rm i j = 0) ∧
+       (∀ i j, i.val = j.val → i.val < min m n → Rm i j = sb))
+
+/-- PARTIAL (the algebraic core of the sweep): in every rotating step — the pivot pair
+    `δ1, δ2` straddles the geometric mean `σ̄` — the parameters `c, s` the code computes make
+    `G1` and `G2` orthogonal and `G2ᵀ · diag(δ1, δ2) · G1 = [[σ̄, x], [0, y]]` with exactly the
+    `x` stored in `z[k]` and the `y` stored back in `d[k+1]`; so each step keeps
+    `Qᵀ A P` upper triangular, fixes one more diagonal entry to `σ̄`, and keeps `Q`, `P`
+    orthonormal.  What is missing for `GmdStatement`: the invariant across steps
+    (permutation arrays, the `z` column updates, existence of a straddling partner). -/
+theorem gmd_rotation_step_partial (sb d1 d2 : ℝ) (hsb : 0 < sb)
+    (h : (0 ≤ d2 ∧ d2 < sb ∧ sb ≤ d1) ∨ (0 ≤ d1 ∧ d1 < sb ∧ sb ≤ d2)) :
+    let cs := gmdCS false sb d1 d2
+    let g := gmdG1 cs.1 cs.2
+    let h := gmdG2 sb d1 d2 cs.1 cs.2
+    (g.1 * g.1 + g.2.2.1 * g.2.2.1 = 1 ∧ g.2.1 * g.2.1 + g.2.2.2 * g.2.2.2 = 1 ∧
+      g.1 * g.2.1 + g.2.2.1 * g.2.2.2 = 0) ∧
+    (h.1 * h.1 + h.2.2.1 * h.2.2.1 = 1 ∧ h.2.1 * h.2.1 + h.2.2.2 * h.2.2.2 = 1 ∧
+      h.1 * h.2.1 + h.2.2.1 * h.2.2.2 = 0) ∧
+    (h.1 * d1 * g.1 + h.2.2.1 * d2 * g.2.2.1 = sb ∧
+      h.1 * d1 * g.2.1 + h.2.2.1 * d2 * g.2.2.2 = gmdX sb d1 d2 cs.1 cs.2 ∧
+      h.2.1 * d1 * g.1 + h.2.2.2 * d2 * g.2.2.1 = 0 ∧
+      h.2.1 * d1 * g.2.1 + h.2.2.2 * d2 * g.2.2.2 = gmdY sb d1 d2) := by
+  obtain ⟨h1, h2⟩ := Pf.gmdCS_spec sb d1 d2 hsb h
+  exact Pf.gmd_step_identities sb d1 d2 _ _ hsb.ne' h1 h2
+
+/-- a step that skips the rotation (`flag`): `c = 1`, `s = 0`; it is taken only when the
+    pivot equals the geometric mean, and then `G1 = G2 = 1`, `x = 0`, `y = δ2` -/
+theorem gmd_flag_step (sb d2 : ℝ) (hsb : sb ≠ 0) :
+    gmdCS true sb sb d2 = (1, 0) ∧ gmdG1 (1 : ℝ) 0 = (1, -0, 0, 1) ∧
+    gmdG2 sb sb d2 1 0 = (1, 0, 0, 1) ∧ gmdX sb sb d2 1 0 = 0 ∧ gmdY sb sb d2 = d2 := by
+  refine ⟨rfl, rfl, ?_, by simp [gmdX], by simp [gmdY, hsb]⟩
+  simp [gmdG2, hsb]
+
+/-- non-vacuity: `σ̄ = 2`, `δ1 = 4`, `δ2 = 1` straddle -/
+example : (0 : ℝ) ≤ 1 ∧ (1 : ℝ) < 2 ∧ (2 : ℝ) ≤ 4 := by norm_num
+
+end gmd
+
+section known_finding
+
+/-- the full three-way agreement, for subspaces of any two dimensions -/
+def ChordalAgreementAllDimsStatement : Prop :=
+  ∀ (m p q r : Nat) (Q1 : Mat ℂ m p) (Q2 : Mat ℂ m q) (U : Mat ℂ p r) (V : Mat ℂ q r) (s : Fin r → ℝ),
+    matMul (cT Q1) Q1 = eye → matMul (cT Q2) Q2 = eye → matMul (cT U) U = eye → matMul (cT V) V = eye →
+    pangleArg Q1 Q2 = matMul (matMul U (diagM (fun i => ((s i : ℝ) : ℂ)))) (cT V) →
+    (∀ i, 0 ≤ s i) → (∀ i, s i ≤ 1) →
+    chordal Q1 Q2 = ((chordalFromAngles (principalAngles (List.ofFn s)) : ℝ) : ℂ)
+
+/-- NEGATIVE WITNESS (known finding `C20:chordal-from-principal-angles:dims-differ`):
+    the agreement holds for `p = q` (`chordal_eq_angles`) but fails when the
+    dimensions differ — for the line `span e₁` and the plane `ℂ²` all kernel
+    contracts hold, the projector form gives `√(1/2)` and the principal-angle
+    form gives `0` (the line lies in the plane). -/
+theorem chordal_angles_disagree_when_dims_differ : ¬ ChordalAgreementAllDimsStatement := by
+  intro h
+  have h1 := h 2 1 2 1 Wit.Q1 Wit.Q2 Wit.U Wit.Q1 Wit.s Wit.hQ1 Wit.hQ2 Wit.hU Wit.hQ1 Wit.hsvd
+    (fun _ => by simp [Wit.s]) (fun _ => by simp [Wit.s])
+  rw [chordal_from_singular_values Wit.Q1 Wit.Q2 Wit.U Wit.Q1 Wit.s Wit.hQ1 Wit.hQ2 Wit.hU Wit.hQ1 Wit.hsvd] at h1
+  have h2 : (List.ofFn Wit.s) = [1] := by simp [Wit.s]
+  rw [h2, Wit.angles_zero] at h1
+  have h3 : Real.sqrt ((((1 : ℕ) : ℝ) + ((2 : ℕ) : ℝ)) / 2 - ∑ i, Wit.s i * Wit.s i) = 0 := by
+    exact_mod_cast h1
+  have h4 : (((1 : ℕ) : ℝ) + ((2 : ℕ) : ℝ)) / 2 - ∑ i, Wit.s i * Wit.s i = 1 / 2 := by
+    simp [Wit.s]; norm_num
+  rw [h4, Real.sqrt_eq_zero'] at h3
+  norm_num at h3
+
+end known_finding
+
+section nonvacuity
+open Matrix
+
+/-- non-vacuity of the `inv` contract: `A = [1; 1]`, `G = [1/2]` -/
+example : matMul (fun _ _ => (1 / 2 : ℂ) : Mat ℂ 1 1) (gram (fun _ _ => (1 : ℂ) : Mat ℂ 2 1)) = eye := by
+  funext i j; fin_cases i; fin_cases j
+  simp [matMul, gram, cT, sumFin, eye, Conj.conj]
+  norm_num
+
+/-- non-vacuity of the `argsort` contract: values `3, 1, 2` are sorted by `[1, 2, 0]` -/
+example : ArgsortContract (fun i => ([3, 1, 2] : List Nat).getD i 0) 3 [1, 2, 0] := by
+  refine ⟨by decide, by decide⟩
+
+/-- non-vacuity of the whitening contract: `C = [4]`, `Q = [1]`, `L = [4]` -/
+example : matMul (cT (eye : Mat ℂ 1 1)) eye = eye ∧
+    matMul (fun _ _ => (4 : ℂ) : Mat ℂ 1 1) eye = matMul eye (diagM (fun _ => (4 : ℂ))) ∧
+    (∀ _ : Fin 1, (4 : ℂ).im = 0 ∧ 0 < (4 : ℂ).re) := by
+  refine ⟨?_, ?_, fun _ => by norm_num⟩
+  · funext i j; fin_cases i; fin_cases j; simp [matMul, cT, sumFin, eye, Conj.conj]
+  · funext i j; fin_cases i; fin_cases j; simp [matMul, sumFin, eye, diagM]
+
+/-- non-vacuity of the pivot hypothesis: `invA = [1]`, `diagonal = [1]` has pivot `2` -/
+example : ∀ x ∈ uisdPivots 0 [(1 : ℚ)] (eye : Mat ℚ 1 1), x ≠ 0 := by
+  intro x hx
+  simp [uisdPivots, eye] at hx
+  subst hx; norm_num
+
+/-- the generic theorems apply to real matrices (`ℝ` with the trivial conjugation) … -/
+example (A : Mat ℝ 4 2) (G : Mat ℝ 2 2) (hG : matMul G (gram A) = eye) :
+    matMul (projWith G A) (projWith G A) = projWith G A := proj_idempotent A G hG
+/-- … and to complex ones -/
+example (A : Mat ℂ 4 2) (G : Mat ℂ 2 2) (hG : matMul G (gram A) = eye) (M : Mat ℂ 4 3) :
+    reflect (projWith G A) (reflect (projWith G A) M) = M := reflect_involutive A G hG M
+
+end nonvacuity
+
 end PyPhysim.C20
